@@ -442,19 +442,20 @@ Section Lib.
               M K' (Wr T_OBJ a (VN 1)
                      (Rd T_ACCESSED 0 (fun acc =>
                         if is_some acc
-                        then p_cleaned tid (fun cobj => Rd T_OBJ cobj (fun cc =>
-                               (if h2b fx then Yield Y_env_cleaned_update else fun k : prog => k)
-                                 (Wr T_OBJ cobj (VN (content cc)) c)))
+                        then (if h2b fx then Yield Y_env_cleaned_update else fun k : prog => k)
+                               (p_cleaned tid (fun cobj => Rd T_OBJ cobj (fun cc =>
+                                  Wr T_OBJ cobj (VN (content cc)) c)))
                         else c))) r).
     { intros K' Hi. apply MP_wr; [reflexivity | inc |].
       apply M_rd_any; [|reflexivity]. intros K4 acc H4.
       assert (He4 : In (T_ENVIRON, 0) K4) by (apply H4; right; apply Hi, He3).
       destruct (is_some acc).
-      - apply M_p_cleaned; [assumption|]. intros cobj K5 H5 Hco.
-        apply M_rd_known; [assumption|]. intros cc Hcc. cbn [R_lib] in Hcc. subst cc. cbn [content Imp_lib app].
-        assert (Hw : forall K6, incl K5 K6 -> M K6 (Wr T_OBJ cobj (VN 1) c) r).
-        { intros K6 H6. apply MP_wr; [reflexivity | inc |]. apply Hc; [inc | right; apply H6, H5, He4]. }
-        destruct (h2b fx); [apply MP_yield|]; apply Hw; inc.
+      - assert (Hcl : forall K5, incl K4 K5 ->
+                  M K5 (p_cleaned tid (fun cobj => Rd T_OBJ cobj (fun cc => Wr T_OBJ cobj (VN (content cc)) c))) r).
+        { intros K5 H5. apply M_p_cleaned; [now apply H5|]. intros cobj K6 H6 Hco.
+          apply M_rd_known; [assumption|]. intros cc Hcc. cbn [R_lib] in Hcc. subst cc. cbn [content Imp_lib app].
+          apply MP_wr; [reflexivity | inc |]. apply Hc; [inc | do 2 right; apply H6, H5, He4]. }
+        destruct (h2b fx); [apply MP_yield|]; apply Hcl; inc.
       - apply Hc; [inc | assumption]. }
     destruct (h2b fx); [apply MP_yield|]; apply Hupd; inc.
   Qed.
